@@ -134,6 +134,8 @@ def purity(rep, prog):
         n += 1
         sm = eff.summ[q]
         muts = {p: s for p, s in sm.mut.items() if p != 'self'}
+        if getattr(f.node, 'name', '').startswith('_') and not getattr(f.node, 'name', '').startswith('__'):
+            rep.ob('R17.pure', q, True, 'private helper (its effects are accounted for in the summaries of its public callers)', f.site); continue
         if muts:
             for p, s in sorted(muts.items()):
                 rep.ob('R17.pure', f'{q}({p})', False, f'writes to the object passed as `{p}`: {s}', f.site)
@@ -152,52 +154,55 @@ def purity(rep, prog):
 
 # ---------------------------------------------------------------------------------------------- R17.formula
 def formulas(rep, prog):
+    """conversions decided on LITERAL dictionaries of symbolic numbers: which notation a dictionary is in is found by the analysed code's own
+    tests / try-except chains, which the evaluator follows"""
+    from ..terms import RAISE
     f = prog.func(LD, 'to_complex')
+    re_, im_, r_, ph_ = A('re'), A('im'), A('r'), A('ph')
+    env = {'re': re_, 'im': im_, 'r': r_, 'ph': ph_}
     for deg, key in ((False, 'radian'), (True, 'degree')):
-        ev = Evaluator(prog)
-        t = call(ev, f, [A('z')], {'degree': deg})
-        # try/except KeyError chains: the evaluator follows the no-exception path = Cartesian form
-        cart = spec(ev, "z['real'] + 1j*z['imag']", {'z': A('z')}, f.mod)
-        rep.ob('R17.formula', f'to_complex:cartesian:{key}', compare_terms(t, cart), f'= {t!r:.160}', f.site, lhs=t, rhs=cart)
-    # polar branch: evaluate the statements after the first try
-    polar_fn = _after_first_try(f.node)
-    if polar_fn is None:
-        rep.ob('R17.formula', 'to_complex:polar', None, 'to_complex no longer has the shape try-cartesian / try-polar', f.site)
-    else:
-        for deg, key in ((False, 'radian'), (True, 'degree')):
-            ev = Evaluator(prog)
-            t = ev.call_fn(polar_fn, f.mod, [A('z')], {'degree': deg}, {'__parent__': None}, 1)
-            ph = "z['phase']*pi/180" if deg else "z['phase']"
-            sp = spec(ev, f"z['abs']*(cos({ph}) + 1j*sin({ph}))", {'z': A('z')}, f.mod)
-            rep.ob('R17.formula', f'to_complex:polar:{key}', compare_terms(t, sp), f'= {t!r:.200}', f.site, lhs=t, rhs=sp)
+        ev = Evaluator(prog); ev.raise_lookup_errors = True
+        t = call(ev, f, [{'real': re_, 'imag': im_}], {'degree': deg})
+        cart = spec(ev, "re + 1j*im", env, f.mod)
+        rep.ob('R17.formula', f'to_complex:cartesian:{key}', compare_terms(t, cart) if t is not RAISE else False, f'= {t!r:.160}', f.site, lhs=t, rhs=cart)
+        ev = Evaluator(prog); ev.raise_lookup_errors = True
+        t = call(ev, f, [{'abs': r_, 'phase': ph_}], {'degree': deg})
+        ph = "ph*pi/180" if deg else "ph"
+        sp = spec(ev, f"r*(cos({ph}) + 1j*sin({ph}))", env, f.mod)
+        rep.ob('R17.formula', f'to_complex:polar:{key}', compare_terms(t, sp) if t is not RAISE else False, f'= {t!r:.200}', f.site, lhs=t, rhs=sp)
     # undictify_complex_values: three notations
     g = prog.func(DL, 'undictify_complex_values')
     notations = {
-        'real-imag': ({'real': A('re'), 'imag': A('im')}, "re + 1j*im"),
-        'abs-phase': ({'abs': A('r'), 'phase': A('ph')}, "r*(cos(ph) + 1j*sin(ph))"),
-        'abs-phase_deg': ({'abs': A('r'), 'phase_deg': A('ph')}, "r*(cos(ph*pi/180) + 1j*sin(ph*pi/180))"),
+        'real-imag': ({'real': re_, 'imag': im_}, "re + 1j*im"),
+        'abs-phase': ({'abs': r_, 'phase': ph_}, "r*(cos(ph) + 1j*sin(ph))"),
+        'abs-phase_deg': ({'abs': r_, 'phase_deg': ph_}, "r*(cos(ph*pi/180) + 1j*sin(ph*pi/180))"),
     }
     for name, (val, sp_src) in notations.items():
         # a notation is a SET of fields: both insertion orders of the dictionary must convert alike (yaml.dump sorts keys, json keeps them)
         for order, v in (('', val), (':fields-reversed', dict(reversed(list(val.items()))))):
-            got = _leaf_conversion(prog, g, v)
-            ev = Evaluator(prog)
-            sp = spec(ev, sp_src, {'re': A('re'), 'im': A('im'), 'r': A('r'), 'ph': A('ph')}, g.mod)
+            ev = Evaluator(prog); ev.raise_lookup_errors = True
+            t = call(ev, g, [{'k': dict(v)}])
+            got = t.get('k') if isinstance(t, dict) else None
+            sp = spec(ev, sp_src, env, g.mod)
             if got is None:
-                rep.ob('R17.formula', f'undictify:{name}{order}', None, 'conversion of this notation not found', g.site)
+                rep.ob('R17.formula', f'undictify:{name}{order}', None, f'conversion of this notation not followed: {t!r:.120}', g.site)
             elif isinstance(got, dict):
                 rep.ob('R17.formula', f'undictify:{name}{order}', False, f'a dictionary with the fields {list(v)} is not recognised as a complex number (left as {got!r:.80})', g.site)
             else:
                 rep.ob('R17.formula', f'undictify:{name}{order}', compare_terms(got, sp), f'= {got!r:.160}', g.site, lhs=got, rhs=sp)
     # dictify leaf: complex -> {'real','imag'}
     h = prog.func(DL, 'dictify_complex_values')
-    keys = set()
-    for n in ast.walk(h.node):
-        if isinstance(n, ast.Dict):
-            ks = {k.value for k in n.keys if isinstance(k, ast.Constant)}
-            if ks: keys = ks; vals = {k.value: ast.unparse(v) for k, v in zip(n.keys, n.values) if isinstance(k, ast.Constant)}
-    ok = keys == {'real', 'imag'} and vals.get('real', '').endswith('.real') and vals.get('imag', '').endswith('.imag')
-    rep.ob('R17.formula', 'dictify:leaf', True if ok else (False if keys else None), f'complex -> {vals if keys else "?"}', h.site)
+    ev = Evaluator(prog)
+    t = call(ev, h, [{'k': A('z')}])
+    got = t.get('k') if isinstance(t, dict) else None
+    ok = None; shown = got
+    if got is not None:
+        want_re, want_im = spec(ev, "real(z)", {'z': A('z')}, h.mod), spec(ev, "imag(z)", {'z': A('z')}, h.mod)
+        leaves = [l for _, l in paths_of(got)]
+        dicts = [l for l in leaves if isinstance(l, dict)]
+        ok = any(set(l) == {'real', 'imag'} and term_equal(l['real'], want_re) and term_equal(l['imag'], want_im) for l in dicts)
+        if not ok and not dicts: ok = None
+    rep.ob('R17.formula', 'dictify:leaf', ok, f'complex -> {shown!r:.160}', h.site)
 
 
 def _after_first_try(fn: ast.FunctionDef):
@@ -279,40 +284,35 @@ def symmetry(rep, prog):
 
 # ---------------------------------------------------------------------------------------------- R17.errors
 def errors(rep, prog):
+    """what generate_component does with a malformed description, decided by evaluating it on literal descriptions: a missing field, an
+    unknown kind and a value dictionary the factory does not accept each END in the documented exception (the analysed program's own
+    try/except statements are followed); the caller's description keeps all its fields"""
+    from ..terms import RAISE, Rec
     f = prog.func(CDL, 'generate_component')
+    full = lambda: {'id': A('the_id'), 'type': 'resistor', 'nodes': A('the_nodes'), 'value': {'R': A('the_R')}}
     want = {'id': 'UnidentifiedComponent', 'value': 'IncorrectComponentInformation', 'type': 'IncorrectComponentInformation', 'nodes': 'IncorrectComponentInformation'}
-    found = {}
-    for n in ast.walk(f.node):
-        if isinstance(n, ast.Try):
-            keys = set()
-            for b in n.body:
-                for x in ast.walk(b):
-                    if isinstance(x, ast.Subscript) and isinstance(x.slice, ast.Constant): keys.add(x.slice.value)
-                    if isinstance(x, ast.Call) and isinstance(x.func, ast.Attribute) and x.func.attr == 'pop' and x.args and isinstance(x.args[0], ast.Constant): keys.add(x.args[0].value)
-            for h in n.handlers:
-                raises = [ast.unparse(r.exc.func if isinstance(r.exc, ast.Call) else r.exc) for r in ast.walk(h) if isinstance(r, ast.Raise) and r.exc is not None]
-                ok = always_raises(h.body)
-                for k in keys: found[k] = (raises[0] if raises else None, ok)
-            tbl = [x for b in n.body for x in ast.walk(b) if isinstance(x, ast.Subscript) and isinstance(x.value, ast.Name) and x.value.id == 'circuit_component_translators']
-            if tbl:
-                for h in n.handlers:
-                    raises = [ast.unparse(r.exc.func if isinstance(r.exc, ast.Call) else r.exc) for r in ast.walk(h) if isinstance(r, ast.Raise) and r.exc is not None]
-                    found['<kind>'] = (raises[0] if raises else None, always_raises(h.body))
-            calls = [x for b in n.body for x in ast.walk(b) if isinstance(x, ast.Call) and any(k.arg is None for k in x.keywords)]
-            if calls:
-                for h in n.handlers:
-                    raises = [ast.unparse(r.exc.func if isinstance(r.exc, ast.Call) else r.exc) for r in ast.walk(h) if isinstance(r, ast.Raise) and r.exc is not None]
-                    found['<values>'] = (raises[0] if raises else None, always_raises(h.body))
-    want.update({'<kind>': 'UnknownCircuitComponent', '<values>': 'IncorrectComponentInformation'})
+    def run(desc):
+        ev = Evaluator(prog); ev.raise_lookup_errors = True
+        r = call(ev, f, [desc])
+        return r, ev.last_raise
     for k, exc in want.items():
-        got = found.get(k)
-        if got is None:
-            rep.ob('R17.errors', f'generate_component:{k}', None, f'no guarded access of {k} found', f.site)
-        else:
-            rep.ob('R17.errors', f'generate_component:{k}', got[0] == exc and got[1], f'missing/invalid {k} -> {got[0]}' + ('' if got[1] else ' (handler can fall through)'), f.site)
-    # the description is copied before any key is popped
-    body = f.node.body
-    first_pop = next((i for i, st in enumerate(body) if any(isinstance(x, ast.Call) and isinstance(x.func, ast.Attribute) and x.func.attr == 'pop' for x in ast.walk(st))), None)
-    copied = next((i for i, st in enumerate(body) if isinstance(st, ast.Assign) and isinstance(st.value, ast.Call) and (ast.unparse(st.value.func).endswith('.copy') or ast.unparse(st.value.func) in ('dict', 'copy.copy', 'copy.deepcopy'))), None)
-    ok = first_pop is None or (copied is not None and copied < first_pop)
-    rep.ob('R17.errors', 'generate_component:copy-before-pop', ok, 'description copied before keys are popped' if ok else 'keys are popped from the caller\'s description', f.site)
+        d = full(); d.pop(k)
+        r, lr = run(d)
+        ok = (r is RAISE and lr == exc)
+        rep.ob('R17.errors', f'generate_component:{k}', True if ok else (False if r is RAISE or isinstance(r, Rec) else None),
+               f'missing {k} -> {lr if r is RAISE else repr(r)[:80]}', f.site)
+    d = full(); d['type'] = 'no_such_kind'
+    r, lr = run(d)
+    rep.ob('R17.errors', 'generate_component:<kind>', True if (r is RAISE and lr == 'UnknownCircuitComponent') else (False if r is RAISE or isinstance(r, Rec) else None),
+           f'unknown kind -> {lr if r is RAISE else repr(r)[:80]}', f.site)
+    d = full(); d['value'] = {'no_such_parameter': A('x')}
+    r, lr = run(d)
+    rep.ob('R17.errors', 'generate_component:<values>', True if (r is RAISE and lr == 'IncorrectComponentInformation') else (False if r is RAISE or isinstance(r, Rec) else None),
+           f'value keys the factory does not accept -> {lr if r is RAISE else repr(r)[:80]}', f.site)
+    # a complete description yields the component, and the caller's dictionary is left as it was
+    d = full(); keys_before = sorted(d)
+    r, lr = run(d)
+    okc = isinstance(r, Rec) and r.cls == 'Component' and r.f.get('type') == 'resistor'
+    rep.ob('R17.errors', 'generate_component:well-formed', True if okc else (None if r is not RAISE else False), f'-> {r!r:.100}', f.site)
+    rep.ob('R17.errors', 'generate_component:copy-before-pop', sorted(d) == keys_before and sorted(d.get('value', {})) == ['R'],
+           'description copied before keys are popped' if sorted(d) == keys_before else f'keys are popped from the caller\'s description (left with {sorted(d)})', f.site)
